@@ -228,6 +228,39 @@ def hygiene_case(cid, rng):
     return Case(cid, "\n".join(L + D) + "\n", meta=meta)
 
 
+def generic_ret_only_case(cid, rng, in_mod, is_async):
+    fid = "%s::subj" % cid
+    # ... or in no part of the signature at all (the caller names it: `Subj::<i64>::subj(&app)`)
+    nowhere = rng.random() < 0.5
+    rty, rexpr = ("::std::string::String", '::std::format!("{:?}", T::default())') if nowhere else ("T", "T::default()")
+    body = '::vrt::enter("%s", ::vrt::tn(deps), ::vrt::addr(deps), &[]); %s%s' % (fid, "::vrt::yield_once().await; " if is_async else "", rexpr)
+    sig = "pub %sfn subj<D, T: ::core::default::Default + ::core::fmt::Debug + ::core::marker::Send + 'static>(deps: &D) -> %s { %s }" % ("async " if is_async else "", rty, body)
+    L = [APP_DEF]
+    macro = rng.choice(["entrait", "entrait_export"])
+    if in_mod:
+        L += ["#[::entrait::%s(pub Subj, mock_api = SubjMock)] /*@inv*/" % macro, "pub mod subject_mod { use super::*;", "    " + sig, "}"]
+        api = "subject_mod::SubjMock::subj"
+    else:
+        L += ["#[::entrait::%s(pub Subj, mock_api = SubjMock)] /*@inv*/" % macro, sig]
+        api = "SubjMock"
+    w = (lambda c: "::vrt::block_on(%s)" % c) if is_async else (lambda c: c)
+    call = (lambda recv: "Subj::<i64>::subj(&%s)" % recv) if nowhere else (lambda recv: "%s.subj()" % recv)
+    ann = "" if nowhere else ": i64"
+    answer, want = ('::std::string::String::from("ANSWER_0")', '"ANSWER_0"') if nowhere else ("99i64", "99")
+    D = ["pub fn run() {", '    ::vrt::phase("mock");',
+         "    { let u = ::unimock::Unimock::new(::unimock::MockFn::each_call(%s.with_types::<i64>(), ::unimock::matching!()).returns(%s));" % (api, answer),
+         '      let r%s = %s; ::vrt::kv("r0", ::std::format!("{:?}", r)); }' % (ann, w(call("u"))),
+         '    ::vrt::phase("partial:0");',
+         '    { let u = ::unimock::Unimock::new_partial(()); ::vrt::kv("u_addr", ::vrt::addr(&u)); ::vrt::kv("u_tn", ::vrt::tn(&u));',
+         "      let r%s = %s; ::vrt::result(&r); }" % (ann, w(call("u"))),
+         '    ::vrt::phase("impl:0");',
+         '    { let app = ::entrait::Impl::new(App { tag: 1, name: "n" }); let r%s = %s; ::vrt::result(&r); }' % (ann, w(call("app"))), "}"]
+    meta = {"family": "fnmod", "mode": "generic", "nontrivial": True, "opts": [], "macro": macro,
+            "calls": [{"i": 0, "fn": fid, "args": [], "want_mock": want, "deps_usable": True, "nested": [], "async": is_async, "no_deps": False}],
+            "methods": [{"name": "subj", "kind": "generic", "arity": 0}], "sigs": [sig[:120]]}
+    return Case(cid, "\n".join(L + D) + "\n", meta=meta)
+
+
 def generic_case(cid, rng):
     """Mockable fns with a generic (non-deps) type parameter: the mock API is instantiated with `with_types`."""
     pos = rng.choice(["first", "last"])
@@ -236,6 +269,10 @@ def generic_case(cid, rng):
     is_async = rng.random() < 0.3
     fid = "%s::subj" % cid
     ps = ["t: T", "a: i32", "b: i32"] if pos == "first" else ["a: i32", "b: i32", "t: T"]
+    ret_only = rng.random() < 0.3
+    if ret_only:
+        # the type parameter occurs in the return type only and the fn has no parameter besides its dependency
+        return generic_ret_only_case(cid, rng, in_mod, is_async)
     names = [p.split(":")[0] for p in ps]
     body = '::vrt::enter("%s", ::vrt::tn(deps), ::vrt::addr(deps), &[%s]); %s%s' % (
         fid, ", ".join("&%s as &dyn ::core::fmt::Debug" % n for n in names), "::vrt::yield_once().await; " if is_async else "",
@@ -285,6 +322,11 @@ def unmock_with_entries(rec):
         return None
     out = []
     for e in tok.split_commas(g):
+        # explicit generic arguments of the fn (`name::<_, T>`, since the repair of the inference defect) are not part of the shape
+        if len(e) >= 5 and "i" in e[0] and tok.is_p(e[1], ":") and tok.is_p(e[2], ":") and tok.is_p(e[3], "<"):
+            k = next((i for i in range(len(e) - 1, 3, -1) if tok.is_p(e[i], ">")), None)
+            if k is not None:
+                e = [e[0]] + e[k + 1:]
         if len(e) == 1 and tok.is_i(e[0], "_"):
             out.append(("_", None))
         elif len(e) == 1 and "i" in e[0]:
